@@ -89,7 +89,7 @@ def run(ctx):
                                   [l.strip() for l in open(os.path.join(C.CORPUS, "ops_misc.txt")) if l.startswith(("compare_pair", "msa_compare"))], "compare")
     lines, meta = [], []
     for i in range(120 if ctx.quick else 1500):
-        kind, A = alngen.rand_alignment(rng, False)
+        kind, A = alngen.rand_alignment(rng, False) if i % 10 else alngen.long_row_alignment(rng)
         if len(A) < 2 or len(A) > 14:
             continue
         A = [(n, r) for n, r in A if True]
@@ -127,8 +127,17 @@ def run(ctx):
         if any(not n or any(ch.isspace() for ch in n) for n, _ in A):
             continue
         fr, ft, fr2 = [os.path.join(sc, "c17_%d_%s.fa" % (k, x)) for x in ("r", "t", "r2")]
+        import random as _random
+        from props import c04
         for path, aln in ((fr, A), (ft, T), (fr2, R2)):
-            open(path, "w").write(gen.fasta_text(aln))
+            # the two alignments may come in any of the three formats (the comparison is of alignments, not of files); names longer than the block
+            # formats keep (255 bytes) stay in FASTA
+            if max(len(n) for n, _ in aln) > 200 or rng.random() < 0.4:
+                open(path, "w").write(gen.fasta_text(aln))
+            else:
+                render = rng.choice([c04.render_clustal, c04.render_msf])
+                open(path, "w").write(render(_random.Random(rng.getrandbits(30)), aln))
+                ctx.count("compared_from_" + render.__name__)
         lines += ["h_read 0 %s" % fr, "h_read 1 %s" % ft, "h_read 2 %s" % fr2, "h_compare 0 1", "h_compare 2 1", "h_free 0", "h_free 1", "h_free 2"]
         keep.append((A, T, tag))
     chunks = [lines[i:i + 8 * 25] for i in range(0, len(lines), 8 * 25)]
